@@ -14,6 +14,7 @@ What a theorem can carry here, and what it cannot:
 -/
 import APModel.Model.TextUnmarshal
 import APModel.Generated.IndexSites
+import APModel.Model.EqCost
 
 namespace APModel.TextUnmarshal
 open APModel.Text (Bytes quote)
@@ -161,3 +162,73 @@ example : expectedSites.any (fun e => covers e ("NaturalLanguageValues.Unmarshal
   decide +kernel
 
 end APModel.C04
+
+namespace APModel.EqCost
+open APModel.Generated
+
+/-! ### the time clause: how often a comparison visits a property
+
+Decoding de-duplicates every list it loads with ItemsEqual, so the cost of a comparison is part of the
+cost of decoding.  `cost` counts ItemsEqual invocations on a skeleton of nested values; the two theorems
+say what the multiplicities mean, the obligations say what they are in the current source. -/
+
+mutual
+theorem cost_le_size (m : Nat → Nat → Nat) (hm : ∀ k p, m k p ≤ 1) : ∀ t : Sk, cost m t ≤ size t
+  | .node k cs => by
+    simp only [cost, size]
+    exact Nat.add_le_add_left (costL_le_sizeL m hm k cs) 1
+theorem costL_le_sizeL (m : Nat → Nat → Nat) (hm : ∀ k p, m k p ≤ 1) (k : Nat) : ∀ l : SkList, costL m k l ≤ sizeL l
+  | .nil => by simp [costL, sizeL]
+  | .cons p c r => by
+    simp only [costL, sizeL]
+    have h1 := cost_le_size m hm c
+    have h2 := costL_le_sizeL m hm k r
+    have h3 : m k p * cost m c ≤ cost m c := by
+      have := Nat.mul_le_mul_right (cost m c) (hm k p)
+      simpa using this
+    omega
+end
+
+/-- **no property visited twice ⇒ proportional work**: when every multiplicity is at most one, a
+comparison invokes ItemsEqual at most once per nested value -/
+theorem C04_linear (m : Nat → Nat → Nat) (hm : ∀ k p, m k p ≤ 1) (t : Sk) : cost m t ≤ size t :=
+  cost_le_size m hm t
+
+/-- **a property visited twice ⇒ the work doubles per level**: on a chain of `d` values nested through
+a property with multiplicity two, a comparison invokes ItemsEqual `2^(d+1) - 1` times for `d + 1` values -/
+theorem C04_doubling (m : Nat → Nat → Nat) (k p : Nat) (h2 : m k p = 2) :
+    ∀ d, cost m (chain k p d) + 1 = 2 ^ (d + 1)
+  | 0 => by simp [chain, cost, costL]
+  | d + 1 => by
+    have ih := C04_doubling m k p h2 d
+    simp only [chain, cost, costL, h2, Nat.add_zero]
+    rw [Nat.pow_succ]
+    omega
+
+def structs : List String :=
+  ["Object", "Actor", "Activity", "IntransitiveActivity", "Question", "Collection", "OrderedCollection",
+   "CollectionPage", "OrderedCollectionPage", "Place", "Profile", "Relationship", "Tombstone", "Link"]
+
+/-- obligation on the regenerated comparison tables: which item-valued properties an Equals method
+compares more than once (through the Equals methods it hands over to; `items` and `orderedItems` are one
+storage).  Everything is compared once, except the eight places recorded as open findings F-C04-4…11:
+the members of ordered collections and the paging links of pages. -/
+theorem C04_compared_once :
+    structs.map (fun r => (r, twice (reach equalsRows equalsDelegations 5 r))) =
+      structs.map (fun r => (r,
+        if r == "OrderedCollection" then ["Items"]
+        else if r == "CollectionPage" then ["Current", "First", "Last"]
+        else if r == "OrderedCollectionPage" then ["Current", "First", "Last", "Items"]
+        else [])) := by
+  decide +kernel
+
+/-- obligation on ItemsEqual's own dispatch (regenerated): in the branch for objects every comparison
+stands under a further condition, and the generic Object comparison runs only when no specific one did —
+no comparison is run on top of another (the defect repaired in ebeeb38) -/
+theorem C04_dispatch_once :
+    (itemsEqualCalls.filter (fun c => c.2.contains "IsObject(it)")).all (fun c =>
+      c.2.length ≥ 2 && (c.1 != "OnObject" || c.2.contains "!compared")) = true ∧
+    (itemsEqualCalls.filter (fun c => c.1 == "OnObject")).length = 1 := by
+  decide +kernel
+
+end APModel.EqCost
